@@ -26,18 +26,24 @@ AgreeOn(s) ==
    IN /\ XMul(a, b) = Mul(a, b)
       /\ (Len(b) > 0 => XDivMod(XMul(a, b), b) = DivMod(Mul(a, b), b) /\ XDivMod(a, b) = DivMod(a, b))
       /\ XModExp(a, e, m) = ModExp(a, e, m)
+      /\ LET u == XMod(a, m)  v == XMod(b, m) IN
+            /\ YAddMod(u, v, m) = DAddMod(u, v, m) /\ YSubMod(u, v, m) = DSubMod(u, v, m) /\ YSubMod(v, u, m) = DSubMod(v, u, m)
+            /\ YAddMod(u, v, m) = Mod(Add(u, v), m) /\ YAddMod(YSubMod(u, v, m), v, m) = u
 ASSUME \A s \in 1..SampleN : AgreeOn(s)
 
 OrderInt(ev, bs) == BBEInt(IF ev.order = "be" THEN bs ELSE BRev(bs))
 HeadInt(ev, bs) == OrderInt(ev, SubSeq(bs, 1, BMin2(BFieldBytes(ev.c), Len(bs))))
 
+\* why the documented library conversion of the digest is not an admissible one (as Ecdsa!LcbHashClass)
+ConvClass(ev) == IF ev.alg = "ecdsa" /\ 8 * BMin2(BFieldBytes(ev.c), Len(ev.hash)) > BitLen(ev.c.n) THEN "hash-to-integer:truncation"
+                 ELSE "hash-to-integer:reduction"
 JudgeVerify(ev, Q) ==
    IF ~BValidPub(ev.c, Q) THEN (IF ev.validated /\ ev.acc THEN "accepts-invalid-public-key" ELSE "ok")
    ELSE LET es   == BHashESet(ev.c, ev.alg, ev.order, ev.hash)
             elib == BLcbE(ev.c, ev.alg, ev.order, ev.hash)
             V(e) == BVerifyCore(ev.c, ev.alg, Q, e, ev.r, ev.s)
         IN IF \E e \in es : V(e) = ev.acc THEN "ok"
-           ELSE IF elib \notin es /\ V(elib) = ev.acc THEN "hash-to-integer"
+           ELSE IF elib \notin es /\ V(elib) = ev.acc THEN ConvClass(ev)
            ELSE IF ev.acc /\ ev.r = Zero THEN "accepts-r=0"
            ELSE IF ev.acc /\ ev.s = Zero THEN "accepts-s=0"
            ELSE IF ev.acc THEN "accepts-invalid-signature" ELSE "rejects-valid-signature"
@@ -47,7 +53,7 @@ JudgeSign(ev) ==
        ks   == BSecretSet(HeadInt(ev, ev.rnd), ev.c.n)
        got  == IF ev.ok THEN << ev.r, ev.s >> ELSE BNoSig
    IN IF \E e \in es : \E k \in ks : BSign(ev.c, ev.alg, ev.d, e, k) = got THEN "ok"
-      ELSE IF \E k \in ks : BSign(ev.c, ev.alg, ev.d, elib, k) = got THEN "hash-to-integer"
+      ELSE IF \E k \in ks : BSign(ev.c, ev.alg, ev.d, elib, k) = got THEN ConvClass(ev)
       ELSE IF got = BNoSig THEN "fails-for-valid-input" ELSE "wrong-signature"
 JudgeKeyGen(ev) ==
    LET ks == BSecretSet(HeadInt(ev, ev.rnd), ev.c.n)
@@ -74,7 +80,7 @@ Judge(ev) ==
    ELSE "unknown-op"
 
 ASSUME \A i \in 1..Len(Tr) : PrintT(ToJson([id |-> Tr[i].id, verdict |-> Judge(Tr[i])]))
-ASSUME PrintT(ToJson([validated |-> Len(Tr), xactive |-> XActive]))
+ASSUME PrintT(ToJson([validated |-> Len(Tr), xactive |-> XActive /\ YActive]))
 
 Init == dummy = 0
 Next == UNCHANGED dummy
